@@ -140,6 +140,7 @@ def run(ctx, drv):
     def ask(line, fn):
         reqs.append(line); post.append(fn)
     tmp = tempfile.mkdtemp(prefix="c19_", dir=os.environ.get("TMPDIR", "/tmp"))
+    open(os.path.join(tmp, f".owner{os.getpid()}"), "w").close()
     n = 260 if ctx.quick() else 4000
     try:
         for t in range(n):
